@@ -245,6 +245,14 @@ def run(ctx):
         for h, n in per.items():
             explicit = sum(1 for o in ops if o[0] == "send" and o[1] == h)
             tx = sum(1 for s in sent if s[1] == h) + sum(1 for x in sendq if x == h)
+            gone = h not in [x[0] for x in handlers]
+            answered = h in engine_run.last_answered
+            addop = [o for o in ops if o[0] == "add" and o[1] == h][0]
+            first_tx = [t for (t, hh) in sent if hh == h][:1]
+            k8 = not first_tx or first_tx[0] > addop[4] + addop[2]          # K8: the timeout expired before the first transmission
+            if explicit == 1 and gone and not answered and not k8 and addop[2] > 0 and tx < 1 + n:
+                ctx.fail("engine:too_few_retransmissions", "handler %d (timeout %d ms, %d retries) was removed unanswered after %d transmissions instead of %d" % (h, addop[2], n, tx, 1 + n),
+                         {"table": table, "ops": ops, "sent": sent})
             if explicit <= 1 and tx > explicit + n:
                 ctx.fail("engine:retries", "handler transmitted %d times with %d retries" % (tx, n), {"table": table, "ops": ops, "sent": sent})
     # ---- K8 probe on the real engine: a request that times out while its first send still waits behind another one
